@@ -591,7 +591,7 @@ class Check:
             "harness_problems": self.harness_problems[:10],
             "exhaustive": False,
         }
-        for k in ("sweep_pairwise", "sweep_fault_sites", "sweep_all_paths", "sweep_detector_abort", "sweep_build_abort"):
+        for k in ("sweep_pairwise", "sweep_fault_sites", "sweep_all_paths", "sweep_detector_abort", "sweep_build_abort", "sweep_address_reuse"):
             if k in st:
                 cov[k] = st[k]
         if extra_cov:
@@ -715,6 +715,8 @@ def run_c14(chk: Check) -> None:
 
     if len(chk.violations) < 5:
         sweeps.detector_abort_sweep(chk, 3 if quick else 12, 6 if quick else 24)
+    if len(chk.violations) < 5:
+        sweeps.address_reuse_sweep(chk, 24 if quick else 160)
     if not quick:
         sweeps.pairwise_history(chk)
         sweeps.fault_site_sweep(chk)
